@@ -11,7 +11,21 @@ import io
 # ---------------------------------------------------------------- elementary item pool (pic, usage, size by the COBOL rules)
 
 
-def elem_choices(display_only):
+def _positions(pic):
+    """character positions of a picture as the project counts them for native text (the S is a position, V is not)"""
+    import re
+    n = 0
+    for ch, rep in re.findall(r"([SX9V])(?:\((\d+)\))?", pic):
+        if ch != "V":
+            n += int(rep) if rep else 1
+    return n
+
+
+def elem_choices(display_only, text_sized=False):
+    if text_sized:
+        # the same pool in the same order (so that one seed draws the same tree), every item as wide as its picture has positions:
+        # the width TextUnpacker gives an item of a schema made by JSONSchemaMaker(TextUnpacker)
+        return [(pic, usage, _positions(pic)) for pic, usage, _ in elem_choices(display_only)]
     out = []
     for k in (1, 2, 3, 5, 8):
         out.append((f"X({k})", "DISPLAY", k))
@@ -35,7 +49,8 @@ def elem_choices(display_only):
 
 class Gen:
     def __init__(self, rng, display_only=False, allow_redef=True, allow_odo=True, allow_filler=True,
-                 redef_in_occurs=False, occurs_elem_in_union=False, odo_in_table=False, odo_in_union=False, max_depth=4, max_kids=5):
+                 redef_in_occurs=False, occurs_elem_in_union=False, odo_in_table=False, odo_in_union=False, max_depth=4, max_kids=5,
+                 text_sized=False):
         self.rng, self.display_only = rng, display_only
         self.allow_redef, self.allow_odo, self.allow_filler = allow_redef, allow_odo, allow_filler
         self.redef_in_occurs, self.occurs_elem_in_union, self.odo_in_table = redef_in_occurs, occurs_elem_in_union, odo_in_table
@@ -43,7 +58,7 @@ class Gen:
         self.max_depth, self.max_kids = max_depth, max_kids
         self.next_id = 1
         self.counters = []          # ids of items usable as ODO counters (elementary, unsigned digits, never repeated)
-        self.pool = elem_choices(display_only)
+        self.pool = elem_choices(display_only, text_sized)
 
     def new_id(self):
         i = self.next_id
@@ -427,8 +442,9 @@ def shared_workbook():
     return _SHARED["wb"]
 
 
-def observe_layout(tree, record, paths, text):
-    """returns (schema_obs, top_obs, lrecl_obs, [(path, obs)], extras) from the real code"""
+def observe_layout(tree, record, paths, text, text_sized=False):
+    """returns (schema_obs, top_obs, lrecl_obs, [(path, obs)], extras) from the real code.
+    text_sized: the schema is made by JSONSchemaMaker(TextUnpacker), so that every width is counted in characters"""
     from lib import exn_code
     from stingray.cobol_parser import schema_iter
     from stingray.schema_instance import SchemaMaker, EBCDIC, TextUnpacker, BytesInstance, TextInstance, LocationMaker
@@ -438,9 +454,14 @@ def observe_layout(tree, record, paths, text):
     unp = shared_unpacker(text)
     keep = [unp]
     try:
-        docs = list(schema_iter(io.StringIO(cb)))
+        if text_sized:
+            from stingray.cobol_parser import JSONSchemaMaker, structure, dde_sentences, reference_format
+            maker = JSONSchemaMaker(TextUnpacker)
+            docs = [maker.jsonschema(r) for r in structure(dde_sentences(reference_format(io.StringIO(cb))))]
+        else:
+            docs = list(schema_iter(io.StringIO(cb)))
         js = docs[0]
-        schema_obs = [0, schema_sx(js, rev, EBCDIC())]
+        schema_obs = [0, schema_sx(js, rev, TextUnpacker() if text_sized else EBCDIC())]
     except BaseException as ex:
         code = exn_code(ex)
         return [1, code], [1, code], [1, code], [[p, [1, code]] for p in paths], None
